@@ -4,4 +4,16 @@ go 1.23.0
 
 require github.com/kercylan98/minotaur v0.0.0
 
+require (
+	github.com/alphadose/haxmap v1.4.0 // indirect
+	github.com/fatih/color v1.17.0 // indirect
+	github.com/json-iterator/go v1.1.12 // indirect
+	github.com/mattn/go-colorable v0.1.13 // indirect
+	github.com/mattn/go-isatty v0.0.20 // indirect
+	github.com/modern-go/concurrent v0.0.0-20180306012644-bacd9c7ef1dd // indirect
+	github.com/modern-go/reflect2 v1.0.2 // indirect
+	golang.org/x/exp v0.0.0-20240719175910-8a7402abbf56 // indirect
+	golang.org/x/sys v0.22.0 // indirect
+)
+
 replace github.com/kercylan98/minotaur => /repo
